@@ -1,10 +1,18 @@
 package main
 
 import (
+	"bytes"
+	"encoding/binary"
 	"fmt"
+	"io"
+	"log"
 	"math"
 	"math/rand"
+	"os"
+	"path/filepath"
 
+	"github.com/Vedant9500/WTF/internal/constants"
+	"github.com/Vedant9500/WTF/internal/database"
 	"github.com/Vedant9500/WTF/internal/embedding"
 )
 
@@ -59,6 +67,142 @@ func init() {
 			check(a, b)
 		}
 		r.Checked = []string{"symmetric", "range"}
+		r.Falsified = bad
+		return r
+	}
+}
+
+func init() {
+	// C19 (bounded): with embedding files of any content attached, the semantic stage only raises
+	// scores, by at most the documented factor, and the list stays ordered - end to end through
+	// the real loaders and SearchUniversal. Complements the proof, in which float64 is the reals
+	// (no NaN, no infinity): damaged records hold exactly those.
+	suites["C19-semantic"] = func() result {
+		r := result{Name: "C19-semantic", Bound: "real LoadEmbeddings + SearchUniversal on a 12-command database: 40 seeded embedding-file pairs (healthy, NaN / +-Inf / huge / zero components, fewer or more records than commands, zero word vectors) x 10 queries x 3 option sets, each compared with the same search on a copy of the database without embeddings"}
+		var bad []string
+		fail := func(f string, a ...interface{}) {
+			if len(bad) < 5 {
+				bad = append(bad, fmt.Sprintf(f, a...))
+			}
+		}
+		defer func() {
+			if rec := recover(); rec != nil {
+				bad = append(bad, fmt.Sprintf("panic: %v", rec))
+				r.Falsified = bad
+			}
+		}()
+		words := []string{"compress", "archive", "list", "files", "search", "text", "git", "commit", "docker", "run", "disk", "usage", "network", "download"}
+		var cmds []database.Command
+		for i := 0; i < 12; i++ {
+			a, b, c := words[i%len(words)], words[(i*3+1)%len(words)], words[(i*5+2)%len(words)]
+			cmds = append(cmds, database.Command{Command: fmt.Sprintf("%s-%s %d", a, b, i), Description: fmt.Sprintf("%s the %s of %s", a, b, c), Keywords: []string{a, c}})
+		}
+		queries := []string{"compress files", "git commit", "search text", "disk usage", "docker run", "download", "list archive network", "text", "run git docker disk", "commit files usage"}
+		optSets := []database.SearchOptions{{Limit: 50, AllPlatforms: true}, {Limit: 50, AllPlatforms: true, UseNLP: true}, {Limit: 3, AllPlatforms: true}}
+		root, err := os.MkdirTemp("/var/tmp", "c19-")
+		if err != nil {
+			r.Falsified = []string{"cannot create scratch directory"}
+			return r
+		}
+		defer os.RemoveAll(root)
+		wd, _ := os.Getwd()
+		defer os.Chdir(wd)
+		os.Chdir(root)
+		log.SetOutput(io.Discard)
+		rng := rand.New(rand.NewSource(1905))
+		special := []float32{float32(math.NaN()), float32(math.Inf(1)), float32(math.Inf(-1)), math.MaxFloat32, -math.MaxFloat32, 0, 1e-38}
+		const dim = 100
+		raised := 0
+		for fi := 0; fi < 40*scale; fi++ {
+			var glove, ce bytes.Buffer
+			binary.Write(&glove, binary.LittleEndian, uint32(len(words)))
+			for wi, w := range words {
+				binary.Write(&glove, binary.LittleEndian, uint16(len(w)))
+				glove.WriteString(w)
+				v := make([]float32, dim)
+				for k := range v {
+					v[k] = float32(rng.NormFloat64())
+				}
+				if fi%8 == 7 && wi%2 == 0 {
+					v = make([]float32, dim) // zero word vector
+				}
+				if fi%10 == 9 && wi == 0 {
+					v[3] = special[rng.Intn(len(special))]
+				}
+				binary.Write(&glove, binary.LittleEndian, v)
+			}
+			n := len(cmds)
+			switch fi % 6 {
+			case 4:
+				n = len(cmds) - 3
+			case 5:
+				n = len(cmds) + 2
+			}
+			binary.Write(&ce, binary.LittleEndian, uint32(n))
+			binary.Write(&ce, binary.LittleEndian, uint32(dim))
+			for i := 0; i < n; i++ {
+				v := make([]float32, dim)
+				for k := range v {
+					v[k] = float32(rng.NormFloat64())
+				}
+				if fi%2 == 1 && rng.Intn(2) == 0 {
+					for j := 0; j < 1+rng.Intn(3); j++ {
+						v[rng.Intn(dim)] = special[rng.Intn(len(special))]
+					}
+				}
+				if fi%5 == 3 && i%4 == 0 {
+					v = make([]float32, dim)
+				}
+				binary.Write(&ce, binary.LittleEndian, v)
+			}
+			os.WriteFile(filepath.Join(root, "glove.bin"), glove.Bytes(), 0o600)
+			os.WriteFile(filepath.Join(root, "cmd_embeddings.bin"), ce.Bytes(), 0o600)
+			with := &database.Database{Commands: append([]database.Command(nil), cmds...)}
+			with.BuildUniversalIndex()
+			if err := with.LoadEmbeddings(); err != nil {
+				continue // a rejected file: the search then runs without embeddings (covered by the proof)
+			}
+			for qi, q := range queries {
+				for oi, o := range optSets {
+					r.Cases++
+					plain := &database.Database{Commands: append([]database.Command(nil), cmds...)}
+					plain.BuildUniversalIndex()
+					base := plain.SearchUniversal(q, database.SearchOptions{Limit: 50, AllPlatforms: true, UseNLP: o.UseNLP})
+					baseScore := map[string]float64{}
+					for _, b := range base {
+						baseScore[b.Command.Command] = b.Score
+					}
+					got := with.SearchUniversal(q, o)
+					what := fmt.Sprintf("file pair #%d, query %q, options #%d", fi, queries[qi], oi)
+					for i, g := range got {
+						old, known := baseScore[g.Command.Command]
+						if known && g.Score > old {
+							raised++
+						}
+						switch {
+						case !known:
+							fail("%s: %q is returned only when embeddings are attached", what, g.Command.Command)
+						case math.IsNaN(g.Score) || math.IsInf(g.Score, 0):
+							fail("%s: score of %q is %v (was %v without embeddings)", what, g.Command.Command, g.Score, old)
+						case g.Score < old:
+							fail("%s: score of %q lowered from %v to %v", what, g.Command.Command, old, g.Score)
+						case g.Score > old*(1+constants.SemanticAlpha)*(1+1e-6):
+							fail("%s: score of %q raised from %v to %v, more than the factor %v", what, g.Command.Command, old, g.Score, 1+constants.SemanticAlpha)
+						}
+						if i > 0 && !(got[i-1].Score >= g.Score) {
+							fail("%s: results not ordered at position %d (%v then %v)", what, i, got[i-1].Score, g.Score)
+						}
+					}
+					if o.Limit >= 50 && len(got) != len(base) {
+						fail("%s: %d results with embeddings, %d without", what, len(got), len(base))
+					}
+				}
+			}
+		}
+		if raised == 0 && len(bad) == 0 {
+			bad = append(bad, "vacuous: no score was raised in any case - the semantic stage never ran")
+		}
+		r.Checked = []string{fmt.Sprintf("every score finite, not lowered, raised by at most 1+SemanticAlpha (%d scores were raised)", raised), "list ordered", "same candidates with and without embeddings"}
 		r.Falsified = bad
 		return r
 	}
